@@ -267,6 +267,7 @@ class Out:
         self.meta = []
         self.waived = []
         self.norefuse = {}  # fn path -> label
+        self.renames = {}  # fn path -> {contract local name: current name in /repo}
         self.honest = False
 
     def add(self, text, **meta):
@@ -391,6 +392,153 @@ def _anchor_across_lines(src_lines, anchor, exact=False):
     return first, last
 
 
+def _squash_lines(src_lines):
+    """layout-free text of a function (whitespace, comments, extractor markers and optional trailing commas removed) with the
+    owning line of every character"""
+    pieces, owner = [], []
+    for i, l in enumerate(src_lines):
+        code = re.sub(r"/\*@.*?\*/", "", l.split("//")[0]) if not l.strip().startswith("//") else ""
+        # keep ONE separator between tokens so that identifiers do not fuse: squash runs of whitespace to a single space first
+        sq = re.sub(r"\s+", " ", code).strip()
+        if sq:
+            sq += " "
+        pieces.append(sq)
+        owner.extend([i] * len(sq))
+    return "".join(pieces), owner
+
+
+REFS_FILE = os.path.join(VERIF, "contracts", "refs.json")
+_REFS = None
+
+
+def _bindings(src_lines):
+    """`let [mut] NAME [: T] = RHS;` statements of a function, layout-insensitively: [(name, normalised RHS)] in source order"""
+    joined, _ = _squash_lines(src_lines)
+    out = []
+    for m in re.finditer(r"\blet\s+(?:mut\s+)?(\w+)\s*(?::[^=;]+?)?=\s*([^;]*);", joined):
+        rhs = re.sub(r"\s+", "", m.group(2))
+        rhs = re.sub(r",(?=[)\]}])", "", rhs)
+        out.append((m.group(1), rhs))
+    # declarations without initialiser (`let mut q;` / `let q: T;`), identified by their ordinal
+    for k, m in enumerate(re.finditer(r"\blet\s+(?:mut\s+)?(\w+)\s*(?::[^=;]+?)?;", joined)):
+        out.append((m.group(1), f"<declared-later#{k}>"))
+    return out
+
+
+def load_refs():
+    """bindings of every contract function as they were when the contracts were written (tools/snapshot_refs.py): the reference
+    against which renamed locals are recognised"""
+    global _REFS
+    if _REFS is None:
+        try:
+            with open(REFS_FILE) as f:
+                _REFS = json.load(f)
+        except Exception:
+            _REFS = {}
+    return _REFS
+
+
+def _renames_from_refs(src_lines, path, contract_text, known):
+    ref = load_refs().get(path)
+    if not ref:
+        return {}
+    cur = _bindings(src_lines)
+    cur_names = {n for n, _ in cur}
+    ref_names = {n for n, _ in ref}
+    ren = dict(known)
+    changed = True
+    while changed:
+        changed = False
+        for name, rhs in ref:
+            if name in ren or name in cur_names:
+                continue
+            want = rhs
+            for old, new in ren.items():
+                want = re.sub(r"(?<![\w$.])" + re.escape(old) + r"\b", new, want)
+            cands = [n for n, r in cur if r == want and n not in ref_names and n not in ren.values()]
+            if len(set(cands)) == 1:
+                ren[name] = cands[0]
+                changed = True
+            elif not cands and re.fullmatch(r"[A-Za-z_][\w:]*", want):
+                # the binding of a constant / path was inlined (`let identity_GT = Gt::IDENTITY;` gone): the hints use the path itself
+                ren[name] = want
+                changed = True
+    return {k: v for k, v in ren.items() if k not in known}
+
+
+def _alpha_renames(src_lines, item, contract):
+    """Locals renamed in /repo since the contract was written (a behaviour-preserving edit): find them from the anchors and loop
+    headers that no longer match and return {old: new}.  Only `let [mut] NAME` / `for NAME in` positions are considered and a
+    rename is accepted only when the rest of the anchor matches exactly one place (layout-insensitively)."""
+    joined, _ = _squash_lines(src_lines)
+    ren = {}
+    ctext = "\n".join([a for _, a, _ in contract.proofs] + [t for _, _, ls in contract.proofs for t, _ in ls]
+                      + [t for _, _, ls in contract.loops for t, _ in ls] + [t for _, _, ls in contract.loopends for t, _ in ls])
+
+    def flex(text):
+        # regex for `text` modulo layout
+        toks = re.findall(r"\w+|[^\w\s]", text)
+        return r"\s*".join(re.escape(t) for t in toks)
+
+    for where, anchor, _lines in contract.proofs:
+        if where == "start":
+            continue
+        a = anchor.lstrip("=").strip()
+        if any(a in l for l in src_lines) or _anchor_across_lines(src_lines, a) is not None:
+            continue
+        m = re.match(r"^(let\s+(?:mut\s+)?)(\w+)(.*)$", a, re.S)
+        if not m:
+            continue
+        head, name, rest = m.groups()
+        # 1. same statement, other name
+        pat = r"let\s+(?:mut\s+)?(\w+)\s*" + flex(rest)
+        hits = [h for h in re.finditer(pat, joined)]
+        if len(hits) > 1:
+            # several bindings with this right-hand side: the renamed one is the one whose name the contract does not know
+            hits = [h for h in hits if not re.search(r"(?<![\w$.])" + re.escape(h.group(1)) + r"\b", ctext)]
+        if len(hits) == 1 and hits[0].group(1) != name:
+            ren[name] = hits[0].group(1)
+            continue
+        # 2. same left-hand side (name and type annotation), other right-hand side: nothing to rename, handled by the caller
+    lps = item.get("loops", [])
+    by_fp = {}
+    for lp in lps:
+        by_fp.setdefault(lp["fp"], []).append(lp["id"])
+    for fp, k, _lines in contract.loops + contract.loopends:
+        if fp in by_fp:
+            continue
+        m = re.match(r"^for\s+(\w+)\s+in\s+(.*)$", fp)
+        if not m:
+            continue
+        name, expr = m.groups()
+        cands = [lp for lp in lps if re.match(r"^for\s+\w+\s+in\s+" + re.escape(expr) + r"$", lp["fp"])]
+        if len(cands) > k:
+            m2 = re.match(r"^for\s+(\w+)\s+in\s+", cands[k]["fp"])
+            if m2 and m2.group(1) != name:
+                ren[name] = m2.group(1)
+    ren.update(_renames_from_refs(src_lines, item["path"], ctext, ren))
+    return ren
+
+
+def _apply_renames(contract, ren):
+    import copy
+    if not ren:
+        return contract
+    c = copy.copy(contract)
+
+    def sub(t):
+        for old, new in ren.items():
+            # (`proof { .. }` is Verus syntax, not the local called `proof`)
+            tail = r"(?!\s*\{)" if old == "proof" else ""
+            t = re.sub(r"(?<![\w$.])" + re.escape(old) + r"\b" + tail, new, t)
+        return t
+
+    c.proofs = [(w, ("=" + sub(a[1:]) if a.startswith("=") else sub(a)), [(sub(t), lab) for (t, lab) in ls]) for (w, a, ls) in contract.proofs]
+    c.loops = [(" ".join(sub(fp).split()), k, [(sub(t), lab) for (t, lab) in ls]) for (fp, k, ls) in contract.loops]
+    c.loopends = [(" ".join(sub(fp).split()), k, [(sub(t), lab) for (t, lab) in ls]) for (fp, k, ls) in contract.loopends]
+    return c
+
+
 def sub_markers(item, contract, out, assume=False, twin=None):
     """Emit one function (or its signature only when assumed) with contract text spliced in."""
     if contract is not None:
@@ -425,6 +573,12 @@ def sub_markers(item, contract, out, assume=False, twin=None):
         out.norefuse[path] = nr_label
     # proof anchors (on source lines)
     src_lines = text.split("\n")
+    if contract is not None and not assume:
+        # locals renamed in /repo (harmless edit): alpha-rename the contract's hints instead of losing the anchors
+        ren = _alpha_renames(src_lines, item, contract)
+        if ren:
+            contract = _apply_renames(contract, ren)
+            out.renames.setdefault(path, {}).update(ren)
     inserts_before = {}
     inserts_after = {}
     start_lines = []
@@ -449,6 +603,23 @@ def sub_markers(item, contract, out, assume=False, twin=None):
             if len(hits) == 0:
                 # layout-insensitive second try (a reformatted statement: rustfmt splits / joins lines, adds trailing commas)
                 hit = _anchor_across_lines(src_lines, anchor.lstrip("="), exact=anchor.startswith("="))
+                if hit is None:
+                    # the anchored `let` still binds the same name but its right-hand side was rewritten (Vec::new() -> vec![] ...):
+                    # the binding itself is the anchor when the function has exactly one binding of that name
+                    mlet = re.match(r"^=?\s*(let\s+(?:mut\s+)?\w+)\b", anchor)
+                    if mlet:
+                        hit = _anchor_across_lines(src_lines, mlet.group(1) + ":", exact=False) or _anchor_across_lines(src_lines, mlet.group(1) + "=", exact=False)
+                if hit is None:
+                    # `let x = CALL(` whose binding was inlined into a tail / return expression: the call itself is the anchor
+                    minl = re.match(r"^=?\s*let\s+(?:mut\s+)?\w+\s*(?::[^=]+)?=\s*(.+)$", anchor)
+                    if minl and len(minl.group(1)) >= 12:
+                        hit = _anchor_across_lines(src_lines, minl.group(1), exact=False)
+                if hit is None:
+                    # `if a OP b {` written the other way round
+                    mif = re.match(r"^=?\s*if\s+(.+?)\s*(==|!=|<=|>=|<|>)\s*(.+?)\s*\{\s*$", anchor)
+                    if mif:
+                        flip = {"==": "==", "!=": "!=", "<": ">", ">": "<", "<=": ">=", ">=": "<="}[mif.group(2)]
+                        hit = _anchor_across_lines(src_lines, f"if {mif.group(3)} {flip} {mif.group(1)} {{", exact=False)
                 if hit is not None:
                     first, last = hit
                     hits = [first if where == "before" else last]
@@ -464,6 +635,12 @@ def sub_markers(item, contract, out, assume=False, twin=None):
             by_fp.setdefault(lp["fp"], []).append(lp["id"])
         for ci, (fp, k, lines) in enumerate(contract.loops):
             ids = by_fp.get(fp, [])
+            if k >= len(ids) and fp.startswith("while "):
+                # the condition was rewritten in an equivalent form: a function's only `while` loop is still that loop
+                wl = [lp["id"] for lp in item.get("loops", []) if lp["fp"].startswith("while ")]
+                if len(wl) == 1 and sum(1 for (f2, _k2, _l2) in contract.loops if f2.startswith("while ")) == 1:
+                    ids = wl
+                    k = 0
             if k >= len(ids):
                 raise Undecided("lost-anchor", f"{path}: loop header {fp!r} #{k} not found (have: {sorted(by_fp)})", fn=path)
             lid = ids[k]
@@ -783,6 +960,9 @@ def assemble(unit, items=None, twin=False):
     for p in verify:
         for r in items[p].get("rewrites", []):
             rewrites.append({"fn": p, **r})
+    for p, ren in out.renames.items():
+        for old, new in sorted(ren.items()):
+            rewrites.append({"fn": p, "rule": "alpha-rename (contract hints follow a local renamed in /repo)", "from": old, "to": new})
     return out, {"items": items, "contracts": contracts, "rewrites": rewrites, "nverify": nverify, "twin_expected": twin_list or []}
 
 
